@@ -35,7 +35,7 @@ VARIABLES
   \* @type: Str -> Int;
   height
 
-CInit    == Replicas = {"A", "B", "C"} /\ Keys = {"k1", "k2", "k3"} /\ MaxHeight = 4 /\ CacheOnBranch = FALSE
+CInit == Replicas = {"A", "B", "C"} /\ Keys = {"k1", "k2", "k3"} /\ MaxHeight = 4 /\ CacheOnBranch = FALSE
 CInitBad == Replicas = {"A", "B", "C"} /\ Keys = {"k1", "k2", "k3"} /\ MaxHeight = 4 /\ CacheOnBranch = TRUE
 
 Shapes == {"single", "twin", "poison"}
